@@ -708,3 +708,31 @@ fn c02_pool_header_shapes() {
     header_shape([[0, 0], [0, 1], [0, 1]], 3, false);
     kani::cover!(true);
 }
+
+/// C09/C14: a pool under the US-ASCII code page whose data holds a byte >= 0x80
+/// (a hostile or foreign file): decoding must replace it (U+FFFD), never panic.
+#[kani::proof]
+#[kani::unwind(8)]
+#[kani::stub(std::fmt::format, crate::util::stub_format)]
+fn c09_pool_data_non_ascii() {
+    let rc: u16 = kani::any();
+    let mut header = [0u8; 8];
+    header[0] = (ASCII_ID & 0xff) as u8;
+    header[1] = ((ASCII_ID >> 8) & 0xff) as u8;
+    header[4] = 2;
+    header[6] = (rc & 0xff) as u8;
+    header[7] = (rc >> 8) as u8;
+    let b = is_ok_forget(StringPoolBuilder::read_from_pool(ArrReader::new(header, 8)));
+    assert!(b.is_some());
+    let data = [b'a', 0xe9u8];
+    let r = is_ok_forget(b.unwrap().build_from_data(ArrReader::new(data, 2)));
+    match r {
+        Some(pool) => {
+            let t = pool.get(sref(1)).as_bytes();
+            assert!(t.len() == 4 && t[0] == b'a' && t[1] == 0xef && t[2] == 0xbf && t[3] == 0xbd, "C14: a non-ASCII byte under US-ASCII must decode to U+FFFD");
+            std::mem::forget(pool);
+        }
+        None => panic!("C09: a pool with a non-ASCII byte under the US-ASCII code page is refused"),
+    }
+    kani::cover!(true);
+}
